@@ -320,12 +320,23 @@ fn parse_cron_part(
             if start.is_empty() {
                 return Err("Can't find start number of range".to_string());
             }
-            let start = parse_value(start, cron_type)?;
+            // In a day of week range, 7 is the day after Saturday (`5-7` is Friday to Sunday)
+            let is_day_of_week = cron_type == &CronPartType::DayOfWeek;
+            let start = if is_day_of_week && start == "7" {
+                7
+            } else {
+                parse_value(start, cron_type)?
+            };
             let end = range_parts.next().unwrap_or_default();
             if end.is_empty() {
                 return Err("Can't find end number of range".to_string());
             }
-            let end = parse_value(end, cron_type)?;
+            let end = if is_day_of_week && end == "7" {
+                7
+            } else {
+                parse_value(end, cron_type)?
+            };
+            let max = if is_day_of_week { 7 } else { max };
             if range_parts.next().is_some() {
                 return Err(format!("Invalid range: {}", part));
             }
@@ -343,7 +354,8 @@ fn parse_cron_part(
                 ));
             }
 
-            values.extend(start..=end);
+            values
+                .extend((start..=end).map(|value| if is_day_of_week { value % 7 } else { value }));
         } else {
             let value = parse_value(part, cron_type)?;
 
